@@ -145,6 +145,42 @@ fn admissible_inc(rng: &mut Rng, unit: &str) -> i128 {
 
 pub fn generate_c09(rng: &mut Rng, thorough: bool) -> Vec<String> {
     let mut v = Vec::new();
+    // the longest durations: a total of exactly +-(2^53 s - 1 ns), one nanosecond less, written with different
+    // fields - every operation must treat them like any other valid duration
+    {
+        let lim: i128 = 9_007_199_254_740_991;
+        let shapes: Vec<[i128; 10]> = vec![
+            [0, 0, 0, 0, 0, 0, lim, 0, 0, 999_999_999],
+            [0, 0, 0, 0, 0, 0, lim, 999, 999, 999],
+            [0, 0, 0, 0, 0, 0, lim, 0, 0, 999_999_998],
+            [0, 0, 0, 104_249_991_374, 7, 36, 31, 999, 999, 999],
+            [0, 0, 0, 0, 2_501_999_792_983, 36, 31, 0, 0, 999_999_999],
+            [0, 0, 0, 0, 0, 0, lim - 1, 999, 999, 1999],
+        ];
+        for sh in &shapes {
+            for sign in [1i128, -1] {
+                let f: Vec<i128> = sh.iter().map(|x| x * sign).collect();
+                let d = join(&f);
+                v.push(format!("du_new {d}"));
+                v.push(format!("du_neg {d}"));
+                v.push(format!("du_abs {d}"));
+                v.push(format!("du_sign {d}"));
+                for u in ["nanosecond", "microsecond", "millisecond", "second", "minute", "hour", "day"] {
+                    v.push(format!("du_total {d} {u}"));
+                }
+                v.push(format!("du_cmp {d} 0 0 0 0 0 0 0 0 0 0"));
+                v.push(format!("du_cmp 0 0 0 0 0 0 1 0 0 0 {d}"));
+                v.push(format!("du_cmp {d} {}", join(&shapes[2].iter().map(|x| x * sign).collect::<Vec<_>>())));
+                v.push(format!("du_add {d} 0 0 0 0 0 0 0 0 0 0"));
+                v.push(format!("du_sub {d} 0 0 0 0 0 0 0 0 0 0"));
+                v.push(format!("du_add {d} 0 0 0 0 0 0 0 0 0 {}", -sign));
+                v.push(format!("du_add {d} 0 0 0 0 0 0 0 0 0 {}", sign));
+                for (l, sm, inc, m) in [("-", "-", "-", "-"), ("auto", "nanosecond", "1", "trunc"), ("second", "-", "-", "-"), ("day", "nanosecond", "1", "halfExpand"), ("hour", "-", "-", "trunc"), ("-", "second", "1", "trunc"), ("-", "second", "1", "floor"), ("-", "second", "1", "ceil")] {
+                    v.push(format!("du_round {d} {l} {sm} {inc} {m}"));
+                }
+            }
+        }
+    }
     let n = if thorough { 400_000 } else { 40_000 };
     for k in 0..n {
         let a = dur_fields(rng, k % 3 != 0, false);
